@@ -13,8 +13,8 @@ What is modelled, branch for branch:
   (`c0 = c[-1] + x*0; for i in 2..len: c0 = c[-i] + c0*x`);
 * the setters `polynom_coefficients` / `expansion_origin` (`data_array.py:229-267`) with their validation
   and `None` handling, and the getters;
-* `DataView.__init__`, `DataView._read_data` and `_transform_coordinates` for integer and slice items
-  (`data_view.py:21-56, 93-162`): every view read (and therefore every `tagged_data` / `feature_data` /
+* `DataView.__init__`, `DataView._read_data`, `_transform_coordinates` and `_expand_user_slices` for
+  integer and slice items (`data_view.py:21-67, 104-200`): every view read (and therefore every `tagged_data` / `feature_data` /
   `get_slice` read — all of them return a `DataView`) goes through the parent's `_read_data`.
 
 Stand-ins (modelled, not verified; exercised by the correspondence runs): the h5py hyperslab read
@@ -214,6 +214,7 @@ def mkView (shape : List Nat) (win : Option (List (Int × Int))) : View :=
     -- `all(slices)`: slice objects are always true
     if sl.length != shape.length then ⟨false, sl⟩
     else if (List.zip sl shape).any (fun se => se.1.2 > (se.2 : Int)) then ⟨false, sl⟩
+    else if sl.any (fun se => se.1 < 0 || se.2 < se.1) then ⟨false, sl⟩    -- negative start / extent
     else
       let simp := (List.zip sl shape).map fun se =>
         match sliceIndices (some se.1.1) (some se.1.2) none se.2 with
@@ -241,11 +242,13 @@ def transformAxis (dv : Int × Int) : AxisIx → Except Err AxisIx
         else if tstart < dv.1 then .error .outOfBounds
         else .ok (.slice (some tstart) (some tstop) (some ustep))
 
-/-- `_transform_coordinates(user_slices)` (no Ellipsis): pad at the end, transform axis by axis;
-`zip` drops surplus user items, as the code does -/
+/-- `_transform_coordinates(user_slices)` (no Ellipsis): more items than the view has dimensions is an
+IndexError (`_expand_user_slices`); otherwise pad at the end and transform axis by axis -/
 def transformCoordinates (dvslices : List (Int × Int)) (user : List AxisIx) : Except Err (List AxisIx) :=
-  let padded := user ++ List.replicate (dvslices.length - user.length) fullSlice
-  (List.zip padded dvslices).mapM (fun ud => transformAxis ud.2 ud.1)
+  if user.length > dvslices.length then .error .indexError
+  else
+    let padded := user ++ List.replicate (dvslices.length - user.length) fullSlice
+    (List.zip padded dvslices).mapM (fun ud => transformAxis ud.2 ud.1)
 
 /-- `DataView._read_data(sl)` -/
 def readView (a : Arr) (v : View) (uix : Index) : Except Err Result :=
